@@ -233,7 +233,7 @@ fn nth_perm(items: &[usize], mut idx: u64) -> Vec<usize> {
     out
 }
 
-const N_HOLD: u64 = 2;
+const N_HOLD: u64 = 3;
 const N_RELGAP: u64 = 3;
 
 fn scen_space(n: usize) -> u64 {
@@ -254,7 +254,7 @@ fn make_scen(keys: &[usize], tb: &Table, mut idx: u64) -> Scen {
     }
     let rp = idx % factorial(n);
     idx /= factorial(n);
-    let hold = [1u32, t + 3][(idx % N_HOLD) as usize];
+    let hold = [0u32, 1, t + 3][(idx % N_HOLD) as usize];
     idx /= N_HOLD;
     let relgap = [0u32, 2, 9][(idx % N_RELGAP) as usize];
     let porder = nth_perm(keys, pp);
@@ -280,6 +280,19 @@ fn work(ctx: &Ctx, c: &Conf) -> Vec<(u8, u64, u64)> {
         }
         let space = scen_space(n);
         v.push((m, space.min(cap), space));
+    }
+    // defchordsv2: every chord together with one bystander (a plain key of the layer that is in no
+    // chord), pressed and released among the participants in every order
+    if c.v2 && tb.nkeys < 5 {
+        let by = 1u8 << tb.nkeys;
+        for (ci, m) in tb.chords.iter().enumerate() {
+            let n = m.count_ones() as usize + 1;
+            if c.disabled(ci) || n > kmax {
+                continue;
+            }
+            let space = scen_space(n);
+            v.push((m | by, space.min(cap), space));
+        }
     }
     v
 }
@@ -1221,6 +1234,9 @@ impl Check for C09Check {
                 out.inc("scenarios");
                 out.inc(&format!("{ver}_scenarios"));
                 out.inc(&format!("{ver}_class_{}", v.class));
+                if c.v2 && (m >> tb.nkeys) != 0 {
+                    out.inc("v2_scenarios_with_bystander");
+                }
                 if v.units.iter().any(|u| *u >= 10) {
                     out.inc(&format!("{ver}_scenarios_with_chord_fired"));
                 }
@@ -1253,7 +1269,7 @@ impl Check for C09Check {
         out
     }
     fn rule(&self) -> String {
-        "case = one configuration (8 chord tables over 2-5 participating keys: single pair, sub-chord + superset, overlapping pairs with an undefined superset, lone triple, two overlapping triples, pairs + quad, chain of 2/3/4, five-key chord with sub-chords; three defchordsv2-only tables whose chords have different timeouts, an unrelated chord on the same key having a much shorter or longer one; each as a defchords group with single-key chords and as defchordsv2 with all-released / first-release, on the base layer and on a layer where every other chord is disabled; participants written in non-sorted order) and a chunk of its scenario space: for every non-empty subset of the participating keys (subsets of up to 3 keys complete in both tiers; quick: 4-key subsets sampled, 40 000 of 288 000 scenarios each, with a fixed stride; thorough: 4-key subsets complete, 5-key subsets 300 000 of 36 M with a fixed stride; the sampling does not depend on the seed) every permutation of press order x every combination of inter-press gaps from {0,1,T-1,T,T+1} x every permutation of release order x hold {1,T+3} x inter-release gap {0,2,9}; plus random physically consistent histories mixing chord keys, a non-chord key and an unrelated key (accounting oracle only); plus one parser case (permuted duplicate key sets must be rejected). Non-trivial = scenario ran and was judged; distinct = (configuration, pressed subset, scenario class, sequence of fired units).".into()
+        "case = one configuration (8 chord tables over 2-5 participating keys: single pair, sub-chord + superset, overlapping pairs with an undefined superset, lone triple, two overlapping triples, pairs + quad, chain of 2/3/4, five-key chord with sub-chords; three defchordsv2-only tables whose chords have different timeouts, an unrelated chord on the same key having a much shorter or longer one; each as a defchords group with single-key chords and as defchordsv2 with all-released / first-release, on the base layer and on a layer where every other chord is disabled; participants written in non-sorted order) and a chunk of its scenario space: for every non-empty subset of the participating keys (subsets of up to 3 keys complete in both tiers; quick: 4-key subsets sampled, 40 000 of 288 000 scenarios each, with a fixed stride; thorough: 4-key subsets complete, 5-key subsets 300 000 of 36 M with a fixed stride; the sampling does not depend on the seed) every permutation of press order x every combination of inter-press gaps from {0,1,T-1,T,T+1} x every permutation of release order x hold {0,1,T+3} x inter-release gap {0,2,9}; for defchordsv2 additionally every chord plus one bystander key (a plain key that is in no chord) in the same scenario space; plus random physically consistent histories mixing chord keys, a non-chord key and an unrelated key (accounting oracle only); plus one parser case (permuted duplicate key sets must be rejected). Non-trivial = scenario ran and was judged; distinct = (configuration, pressed subset, scenario class, sequence of fired units).".into()
     }
     fn assumptions(&self) -> Vec<String> {
         vec![
@@ -1270,6 +1286,7 @@ impl Check for C09Check {
         let _ = ctx;
         vec![
             ("v1_class_positive", 5_000),
+            ("v2_scenarios_with_bystander", 5_000),
             ("v2_class_mixed-positive", 2_000),
             ("v2_class_mixed-positive-after-shorter-chord-ruled-out", 300),
             ("v2_class_positive", 20_000),
